@@ -56,7 +56,7 @@ func H_C16_PQ() {
 		raw = append(raw, it)
 		its = append(its, it)
 	}
-	q, err := NewPriorityQueue[uint8, uint8, int](skiplist.OrderedComparator[uint8]{}, its)
+	q, err := NewPriorityQueue[uint8, uint8, int](skiplist.VComparator(), its)
 	vrt.Assert(err == nil, "pq/init-no-error")
 
 	seen := make([]bool, 64)
@@ -101,7 +101,7 @@ func H_C16_PQWide() {
 		keys[i] = vrt.Byte(vrt.K("k", i))
 		its = append(its, &vIter{ctx: i, keys: []uint8{keys[i]}, vals: []uint8{uint8(i)}})
 	}
-	q, err := NewPriorityQueue[uint8, uint8, int](skiplist.OrderedComparator[uint8]{}, its)
+	q, err := NewPriorityQueue[uint8, uint8, int](skiplist.VComparator(), its)
 	vrt.Assert(err == nil, "pqwide/init-no-error")
 	seen := make([]bool, k)
 	var prev uint8
